@@ -41,12 +41,15 @@ TRUSTED = [
     "observation: a node is kept iff its marker symbol n_K survives in .symtab (wild drops symbols of discarded sections)",
     "as, gcc (freestanding runtime), ar, GNU ld, the kernel/ld.so for native runs, vlib/elfread.py",
 ]
-RULE = ("random graphs of 6-18 section nodes in 1-4 files (functions in .text.fK, data records in .data.dK, members of __start/__stop sets, "
-        "retained/note/init_array/KEEP roots), edges by named symbol (global, hidden, local), by section symbol + non-zero addend, by FDE (LSDA) and CIE "
-        "(personality), cycles and self loops; link modes static / -u / PIE+--export-dynamic / PIE+--export-dynamic-symbol / -shared / linker script KEEP; "
+RULE = ("random graphs of 6-18 section nodes in 1-4 files (functions in .text.fK, data records in .data.dK, TLS records in .tdata.tK, members of "
+        "__start/__stop sets, retained/note/init_array/KEEP roots), edges by named symbol (global, hidden, local), by section symbol + non-zero addend, by FDE "
+        "(LSDA) and CIE (personality), by relocations that need nothing from the symbol at link time (`.reloc ., R_X86_64_NONE, sym|section+addend` in code, "
+        "data, TLS and set-member sections; `sym@tlsld`), in two thirds of the graphs one node is reachable ONLY through such a relocation; cycles and self loops; link modes static / -u / PIE+--export-dynamic / PIE+--export-dynamic-symbol / -shared / linker script KEEP; "
         "non-trivial = at least one node is collected and at least one non-root node is kept; distinct by request line")
 ASSUMPTIONS = ["x86-64 only", "COMDAT groups are not generated (wild's traversal has no group edges; C02 covers COMDAT selection)",
-               "every node section with an FDE is non-empty"]
+               "every node section with an FDE is non-empty",
+               "R_X86_64_SIZE32/64 edges are not generated: wild rejects these relocation types outright ('Unsupported relocation type', a loud link failure, "
+               "not a GC question); gas resolves sym@SIZE of local symbols itself"]
 
 RUNTIME_C = r"""
 typedef unsigned long u64;
@@ -100,14 +103,17 @@ def gen_graph(r, mode):
         nd.file = 0 if k == 0 else r.below(nfiles)
         c = r.below(10)
         nd.kind = "f" if (k == 0 or c < 5) else ("d" if c < 8 or nsets == 0 else "m")
+        if nd.kind == "d" and mode != "script" and r.chance(1, 5):
+            nd.kind = "t"                    # TLS data record in .tdata.tK: only reachable through x@tlsld / keep-alive relocations
         nd.set = r.below(nsets) if nd.kind == "m" else None
         if nd.kind == "m" and any(x.kind == "m" and x.set == nd.set and x.file == nd.file for x in nodes):
             nd.kind, nd.set = "d", None      # one member section per (file, set): the assembler merges same-named sections
         nd.vis = "global" if k == 0 else r.choice(["global", "global", "hidden", "local"])
-        nd.pad = r.choice([0, 0, 4, 8, 16]) if nd.kind != "m" else 0
-        nd.retain = k != 0 and nd.kind != "m" and r.chance(1, 12)
+        nd.pad = r.choice([0, 0, 4, 8, 16]) if nd.kind not in ("m", "t") else 0
+        nd.retain = k != 0 and nd.kind not in ("m", "t") and r.chance(1, 12)
         nd.keep = False
-        nd.succ = []       # (how, target) how in name|secsym|member
+        nd.succ = []       # (how, target) how in name|secsym|member (relocations that need the symbol's address) or
+        #                    none|none-secsym|tlsld (relocations that need NOTHING from the symbol at link time: R_X86_64_NONE keep-alive, x@tlsld)
         nd.sets = []       # referenced start/stop sets
         nd.lsda = None
         nodes.append(nd)
@@ -118,18 +124,23 @@ def gen_graph(r, mode):
             if nd.kind == "m" and t.kind == "m":
                 continue
             same = t.file == nd.file
-            if t.kind == "m":
-                how = "member"
+            noflag = nd.kind == "t" or r.chance(1, 4)     # a TLS image holds no pointers: its only edges are keep-alive relocations
+            if t.kind == "t":
+                if t.vis == "local" and not same:
+                    continue
+                how = "tlsld" if (nd.kind == "f" and not noflag) else "none"
+            elif t.kind == "m":
+                how = "none" if noflag else "member"
                 if t.vis == "local" and not same:
                     continue
             elif same and r.chance(1, 3):
-                how = "secsym"
+                how = "none-secsym" if noflag else "secsym"
             else:
-                how = "name"
+                how = "none" if noflag else "name"
                 if t.vis == "local" and not same:
                     continue
             nd.succ.append((how, t.id))
-        if nd.kind != "m" and nsets and r.chance(1, 5):
+        if nd.kind not in ("m", "t") and nsets and r.chance(1, 5):
             j = r.below(nsets)
             if any(x.kind == "m" and x.set == j for x in nodes) and j not in nd.sets:
                 nd.sets.append(j)
@@ -163,7 +174,32 @@ def gen_graph(r, mode):
                 x.keep = True
     if nfiles > 1 and r.chance(1, 3):
         g["archive"] = [r.range(1, nfiles - 1)]
+    # In two thirds of the graphs one node is made reachable ONLY through a relocation that needs nothing from its symbol
+    # (`.reloc ., R_X86_64_NONE, sym`, or `sym@tlsld` for a TLS record): all other ways of reaching it are removed.
+    if r.chance(2, 3):
+        busy = set(g["pers"].values()) | {t for _, _, t in g["extra"]} | set(g["undef"]) | set(g["export"]) | {x.lsda for x in nodes if x.lsda is not None}
+        exported = mode in ("pie-export-all", "shared")
+        cands = [x for x in nodes if x.id != 0 and x.kind in ("f", "d", "t") and not x.retain and not x.keep and x.id not in busy
+                 and not (exported and x.vis == "global")]
+        if cands:
+            u = r.choice(cands)
+            srcs = [x for x in nodes if x.id != u.id and x.kind in ("f", "d") and (u.vis != "local" or x.file == u.file)]
+            if srcs:
+                src = nodes[0] if (nodes[0] in srcs and r.chance(1, 2)) else r.choice(srcs)
+                for x in nodes:
+                    x.succ = [(h, t) for h, t in x.succ if t != u.id or x.id == u.id]
+                if u.kind == "t" and src.kind == "f" and r.chance(1, 2):
+                    how = "tlsld"
+                elif u.kind != "t" and src.file == u.file and r.chance(1, 3):
+                    how = "none-secsym"
+                else:
+                    how = "none"
+                src.succ.append((how, u.id))
+                g["only_noflag"] = u.id
     return g
+
+
+NOFLAG = ("none", "none-secsym", "tlsld")
 
 
 def secname(nd):
@@ -171,6 +207,8 @@ def secname(nd):
         return f".text.f{nd.id}"
     if nd.kind == "d":
         return f".data.keep{nd.id}" if nd.keep else f".data.d{nd.id}"
+    if nd.kind == "t":
+        return f".tdata.t{nd.id}"
     return f"myset{nd.set}"
 
 
@@ -197,6 +235,8 @@ def render_file(g, f):
             out.append(f'    .section {secname(nd)},"ax{"R" if nd.retain else ""}",@progbits\n')
         elif nd.kind == "d":
             out.append(f'    .section {secname(nd)},"aw{"R" if nd.retain else ""}",@progbits\n')
+        elif nd.kind == "t":
+            out.append(f'    .section {secname(nd)},"awT",@progbits\n')
         else:
             out.append(f'    .section {secname(nd)},"aw",@progbits\n')
     if f == 0:
@@ -208,11 +248,19 @@ def render_file(g, f):
         for a in g["archive"]:
             out.append(f'    .section .data.pulls,"aw",@progbits\n    .quad pull_{a}\n')
 
+    # GNU ld refuses a TLS definition whose reference in another file is an untyped undefined symbol ("mismatches non-TLS reference")
+    for t in sorted({t for nd in mine for _, t in nd.succ if nodes[t].kind == "t" and nodes[t].file != f}):
+        out.append(f"    .type n_{t}, @tls_object\n")
+
     def ptr_expr(how, t):
         tn = nodes[t]
-        if how == "secsym":
+        if how in ("secsym", "none-secsym"):
             return f"{secname(tn)}+{tn.pad}"
         return f"n_{t}"
+
+    def keepalive(how, t):
+        """a relocation that patches nothing: the referenced section must stay alive all the same"""
+        return f"    .reloc ., R_X86_64_NONE, {ptr_expr(how, t)}\n"
 
     for nd in mine:
         if nd.kind == "f":
@@ -229,7 +277,12 @@ def render_file(g, f):
             out.append(f"    sub $8, %rsp\n    mov ${nd.id}, %edi\n    call visit_fn@PLT\n    test %eax, %eax\n    jz 9f\n")
             for how, t in nd.succ:
                 tn = nodes[t]
-                if tn.kind == "f":
+                if how == "tlsld":
+                    # never executed (no TLS block is set up in the freestanding runs); R_X86_64_TLSLD designates the module, not the symbol
+                    out.append(f"    jmp 7f\n    leaq n_{t}@tlsld(%rip), %rdi\n    call __tls_get_addr@PLT\n7:\n")
+                elif how in ("none", "none-secsym"):
+                    out.append(keepalive(how, t))
+                elif tn.kind == "f":
                     if how == "secsym":
                         out.append(f"    call {secname(tn)}+{tn.pad}\n")
                     elif tn.vis == "global":
@@ -264,7 +317,9 @@ def render_file(g, f):
             ents = []
             for how, t in nd.succ:
                 tn = nodes[t]
-                if tn.kind == "f":
+                if how in ("none", "none-secsym"):
+                    ents.append(keepalive(how, t) + "    .quad 5, 0\n")      # kind 5: ignored by the run-time walk
+                elif tn.kind == "f":
                     ents.append(f"    .quad 0, {ptr_expr(how, t)}\n")
                 elif tn.kind == "d":
                     ents.append(f"    .quad 1, {ptr_expr(how, t)}\n")
@@ -274,13 +329,22 @@ def render_file(g, f):
                 ents.append(f"    .quad 2, __start_myset{j}\n    .quad 3, __stop_myset{j}\n")
             cnt = sum(e.count(".quad") for e in ents)
             out.append(f"n_{nd.id}:\n    .quad {nd.id}\n    .quad {cnt}\n" + "".join(ents))
+        elif nd.kind == "t":
+            out.append(f'    .section {secname(nd)},"awT",@progbits\n')
+            out.append(symdecl(nd))
+            out.append(f"n_{nd.id}:\n    .quad {nd.id}\n")
+            for how, t in nd.succ:
+                out.append(keepalive(how, t))
         else:
             out.append(f'    .section {secname(nd)},"aw",@progbits\n')
             out.append(symdecl(nd))
             out.append(f"n_{nd.id}:\n    .quad 4, {nd.id}\n")
             for how, t in nd.succ:
                 tn = nodes[t]
-                out.append(f"    .quad {0 if tn.kind == 'f' else 1}, {ptr_expr(how, t)}\n")
+                if how in ("none", "none-secsym"):
+                    out.append(keepalive(how, t) + "    .quad 5, 0\n")
+                else:
+                    out.append(f"    .quad {0 if tn.kind == 'f' else 1}, {ptr_expr(how, t)}\n")
     for kind, ef, t in g["extra"]:
         if ef != f:
             continue
@@ -291,16 +355,16 @@ def render_file(g, f):
     return "".join(out)
 
 
-def model_request(g, no_gc=False):
-    """The abstract graph in the model's terms. Node numbering: 0..n-1, n = `.text._start`, then the helper sections."""
+def model_request(g, no_gc=False, drop_noflag=False):
+    """The abstract graph in the model's terms. Node numbering: 0..n-1, n = `.text._start`, then the helper sections.
+    Every relocation is an edge, whatever its type; `drop_noflag` leaves out the relocations that need nothing from their symbol
+    (used only to measure how many cases have a node that is reachable through such a relocation alone)."""
     nodes = g["nodes"]
     n = len(nodes)
     mode = g["mode"]
     secs = []
     for nd in nodes:
-        refs = [f"s{t}" for _, t in nd.succ] + [f"x{j}" for j in nd.sets]
-        if nd.kind == "d":
-            pass
+        refs = [f"s{t}" for how, t in nd.succ if not (drop_noflag and how in NOFLAG)] + [f"x{j}" for j in nd.sets]
         fde = []
         if nd.lsda is not None:
             fde = [f"s{nd.id}", f"s{nd.lsda}"]
@@ -396,6 +460,17 @@ def run(ctx):
                 ctx.count("edge", how)
     model_full = ctx.model_eval(reqs)
     model = [m[:len(c[0]["nodes"])] for m, c in zip(model_full, cases)]
+    # coverage of the input class "reachable ONLY through a relocation that needs nothing from its symbol": the model's closure without those edges
+    without = ctx.model_eval([model_request(c[0], drop_noflag=True) for c in cases])
+    essential = 0
+    for m, w, c in zip(model, without, cases):
+        lost = [k for k in range(len(m)) if m[k] == "1" and w[k] == "0"]
+        ctx.count("noflag-edge", "some-node-reachable-only-through-it" if lost else "redundant-or-absent")
+        essential += 1 if lost else 0
+        if lost:
+            ctx.count("noflag-edge-kind-of-lost-node", "+".join(sorted({c[0]["nodes"][k].kind for k in lost})))
+    if cases and essential == 0:
+        ctx.broken.append("coverage: no generated graph has a section that is reachable only through an R_X86_64_NONE / TLSLD relocation")
 
     def nontrivial(l, a, b):
         return "0" in b and b.count("1") >= 2
